@@ -288,7 +288,10 @@ Section Eval.
     match v with
     | VInp => Ok (match assoc k inp with Some i => val_of_ival i | None => VUndef end) (fst s, k :: snd s)
     | VUndef => Throw s
-    | VStr x => if String.eqb k "length" then Ok (VNum (N.of_nat (String.length x))) s else Unsup
+    | VStr x => if String.eqb k "length" then Ok (VNum (N.of_nat (String.length x))) s
+                else if all_digits k then Unsup            (* a character of the string: outside the model *)
+                else Ok VUndef s                            (* (prototype methods are not in the generator's pool) *)
+    | VNum _ | VBool _ => Ok VUndef s                      (* properties of numbers / booleans: undefined *)
     | VObj fs => Ok (match assoc k fs with Some x => VStr x | None => VUndef end) s
     | _ => Unsup
     end.
